@@ -767,11 +767,20 @@ fn refresh_coordinate_keys(
 
                 // Add the most recent secrets from the MSK that do not belong
                 // to the USK at the front of the updated chain (cf Invariant.1)
+                let mut is_found = false;
                 for (_, msk_secret) in msk_secrets.by_ref() {
                     if msk_secret == &first_secret {
+                        is_found = true;
                         break;
                     }
                     updated_chain.push_back(msk_secret.clone());
+                }
+
+                // The most recent USK secret does not belong to the MSK anymore
+                // (it was pruned), and neither do the older ones: only the MSK
+                // secrets are kept.
+                if !is_found {
+                    return Some((coordinate, updated_chain));
                 }
 
                 // Push the first USK secret since it was consumed from the USK
